@@ -4,7 +4,7 @@ use super::setcommon::*;
 use crate::core::*;
 use crate::data::*;
 use crate::gen::{self, Dec};
-use crate::model::eval::{self as me, compare};
+use crate::model::eval::{self as me, compare_with};
 use crate::probe::{self, SetSpec};
 use crate::sval::{self, Image, SVal};
 use reval::prelude::*;
@@ -46,7 +46,11 @@ pub fn check(case: &SetCase) -> Verdict {
             }
             // same result as the rule on its own (only asserted where the model itself is order-independent)
             if me::show_model(&model[i]) == me::show_model(&alone[i]) {
-                if let Some(d) = compare(value, &model[i]) {
+                // values echoed by user functions are compared exactly (decimal scale included), computed ones by value
+                fn has_call(e: &Expr) -> bool {
+                    matches!(e, Expr::Function(..)) || children(e).iter().any(|c| has_call(c))
+                }
+                if let Some(d) = compare_with(value, &model[i], has_call(expr)) {
                     return Err(Issue::new(
                         format!("ruleset:outcome-value:{d:?}"),
                         format!(
@@ -162,9 +166,9 @@ fn random_case(bytes: &[u8]) -> SetCase {
 
 pub fn run(ctx: &Ctx) {
     ctx.set_rule(
-        "Generated: (1) every ruleset of 0-4 rules drawn from 11 rule kinds (one succeeding, one calling cacheable and non-cacheable \
+        "Generated: (1) every ruleset of 0-4 rules drawn from 14 rule kinds (one succeeding, one calling cacheable and non-cacheable \
          probes and a symbol, and one failing with each error class: type mismatch, division by zero, invalid cast, out of bounds, \
-         unknown reference, invalid symbol, unknown function, user-function failure, out-of-range result), i.e. every subset and \
+         unknown reference, invalid symbol, unknown function, user-function failure, and four out-of-range results: Int +, dec(2^96), DateTime + Duration, int(f1e300)), i.e. every subset and \
          position of failing rules (exhaustive); (2) random rulesets of 0-8 rules mixing those kinds, call-heavy rules and random \
          typed trees, with random function tables (failure sets), on inputs of every shape; (3) serde inputs T (all data-model kinds, \
          incl. ones whose Serialize fails) for evaluate(&T). Oracle: exactly one outcome per rule, in order, carrying that rule \
@@ -201,7 +205,7 @@ pub fn run(ctx: &Ctx) {
         true,
         |i, acc| {
             let kinds = decode(i);
-            let nt = kinds.len() >= 2 && kinds[..kinds.len() - 1].iter().any(|k| (1..=9).contains(k));
+            let nt = kinds.len() >= 2 && kinds[..kinds.len() - 1].iter().any(|k| (1..=12).contains(k));
             acc.cell(&format!("small:{}rules", kinds.len()), nt);
             let case = SetCase { spec: fixed_spec(&kinds), inputs: vec![facts.clone()] };
             if nt && i % 977 == 0 {
